@@ -422,4 +422,57 @@ theorem posNat_eq_succ_iff (segs : List Nat) (hnd : segs.Nodup) (v c : Nat) :
       exact absurd (by simpa using this) hc
 
 
+/-! ### construction-time combination -/
+
+theorem listMax_le_of_forall (l : List Nat) (m : Nat) (h : ∀ x ∈ l, x ≤ m) : listMax l ≤ m := by
+  unfold listMax
+  have : ∀ a, a ≤ m → l.foldl max a ≤ m := by
+    induction l with
+    | nil => intro a ha; exact ha
+    | cons b t ih =>
+      intro a ha
+      rw [List.foldl_cons]
+      exact ih (fun x hx => h x (by simp [hx])) (max a b) (by have := h b (by simp); omega)
+  exact this 0 (Nat.zero_le _)
+
+theorem combinePixel_zero (chans : List Nat) (h : ∀ c ∈ chans, c = 0) : combinePixel chans = 0 := by
+  have hm : listMax chans = 0 := by
+    have := listMax_le_of_forall chans 0 (fun x hx => by rw [h x hx]; exact Nat.le_refl 0)
+    omega
+  unfold combinePixel
+  match chans, h with
+  | [c], h => exact h c (by simp)
+  | [], _ => simp [hm]
+  | a :: b :: t, _ => simp [hm]
+
+theorem combinePixel_one (chans : List Nat) (hbin : ∀ c ∈ chans, c = 0 ∨ c = 1) (j : Nat)
+    (hj : chans[j]? = some 1) (huniq : ∀ i, chans[i]? = some 1 → i = j) : combinePixel chans = j + 1 := by
+  have hjl : j < chans.length := (List.getElem?_eq_some_iff.mp hj).1
+  have hm : listMax chans = 1 := by
+    have h1 := listMax_le_of_forall chans 1 (fun x hx => by rcases hbin x hx with h | h <;> omega)
+    have h2 := le_listMax chans 1 (List.mem_of_getElem? hj)
+    omega
+  have harg : argmaxFirst chans = j := by
+    unfold argmaxFirst
+    rw [hm]
+    apply (List.findIdx_eq hjl).mpr
+    constructor
+    · have := (List.getElem?_eq_some_iff.mp hj).2; simp [this]
+    · intro i hi
+      have hil : i < chans.length := by omega
+      have : chans[i] ≠ 1 := by
+        intro h1
+        have := huniq i (by rw [List.getElem?_eq_getElem hil, h1])
+        omega
+      simpa using this
+  unfold combinePixel
+  match chans, hj, hjl, hm, harg with
+  | [c], hj, hjl, _, _ =>
+    have : j = 0 := by simp at hjl; omega
+    subst this
+    simp at hj; omega
+  | [], _, hjl, _, _ => simp at hjl
+  | a :: b :: t, _, _, hm, harg => simp only [hm, harg]; omega
+
+
 end HdVerif.SegReadLemmas
